@@ -276,7 +276,7 @@ package stree
 //@ func (*Tree).Clone
 //@   requires [C01] treeInv(t) && sizeInv(t)
 //@   ensures  [C01] inv: result != nil && fresh(result) && treeInv(result) && sizeInv(result)
-//@   ensures  [C01] same: result.compare == t.compare && result.size == t.size + 1 && (forall k int :: {k in result.elems} k in result.elems <==> k in t.elems) && (forall k int :: {result.vals[k]} k in t.elems ==> result.vals[k] == t.vals[k])
+//@   ensures  [C01] same: result.compare == t.compare && result.size == t.size && (forall k int :: {k in result.elems} k in result.elems <==> k in t.elems) && (forall k int :: {result.vals[k]} k in t.elems ==> result.vals[k] == t.vals[k])
 //@   ensures  [C01] apart: forall y ref :: {inD(result.root, y)} inD(result.root, y) ==> !old(allocated(y))
 //@   ensures  [C01] frame: forall y *node[T] :: {y.left} {y.right} {y.X} {y.keys} {y.desc} old(allocated(y)) ==> sameNode(y)
 //@   ensures  [C01] original: treeInv(t) && sizeInv(t) && t.root == old(t.root) && t.elems == old(t.elems) && t.vals == old(t.vals)
